@@ -39,6 +39,8 @@ type FuncSpec struct {
 	Clauses    []*Clause
 	Replay     map[string]string // replay variable -> expression text
 	ReplayKeys []string
+	Synchronous []string // property ids: the body must not spawn, send on channels or defer
+	IsSync     bool
 	NoPanic    []string // property ids for implicit-panic obligations
 	HasNoPanic bool
 	Floor      int // minimal number of obligations expected
@@ -98,7 +100,7 @@ var clauseHead = regexp.MustCompile(`^(requires|ensures_on_panic|ensures|maintai
 var knownKeywords = map[string]bool{
 	"func": true, "iface": true, "ghost": true, "smtfun": true, "spec": true, "axiom": true, "lemma": true,
 	"requires": true, "ensures": true, "maintains": true, "modifies": true, "pure": true, "pure_const": true, "inline": true, "let": true, "loop": true,
-	"panics_iff": true, "ensures_on_panic": true, "replay": true, "nopanic": true, "params": true, "results": true,
+	"panics_iff": true, "ensures_on_panic": true, "replay": true, "nopanic": true, "synchronous": true, "params": true, "results": true,
 	"trusted": true, "floor": true, "callee": true, "use": true, "extern": true,
 }
 
@@ -282,6 +284,10 @@ func (sf *SpecFile) load(path string, extern bool) error {
 					return fail(l, "bad callee clause")
 				}
 				cur.Callee[strings.TrimSpace(fs[0])] = strings.TrimSpace(fs[1])
+			case strings.HasPrefix(first, "synchronous"):
+				props, _ := parsePropsLabel(strings.TrimPrefix(first, "synchronous"))
+				cur.Synchronous = append(cur.Synchronous, props...)
+				cur.IsSync = true
 			case strings.HasPrefix(first, "nopanic"):
 				props, _ := parsePropsLabel(strings.TrimPrefix(first, "nopanic"))
 				cur.NoPanic = append(cur.NoPanic, props...)
@@ -373,6 +379,12 @@ func (sf *SpecFile) load(path string, extern bool) error {
 					seen[p] = true
 					fs.Props = append(fs.Props, p)
 				}
+			}
+		}
+		for _, p := range fs.Synchronous {
+			if !seen[p] {
+				seen[p] = true
+				fs.Props = append(fs.Props, p)
 			}
 		}
 		for _, p := range fs.NoPanic {
